@@ -257,6 +257,32 @@ func (in *Interp) builtin(fr *frame, cc *ssa.CallCommon, b *ssa.Builtin, args []
 			}
 		}
 		return nil
+	case "Slice": // unsafe.Slice(ptr, n): the footprint must lie inside the underlying object
+		p := args[0].(Pointer)
+		n := in.concInt(args[1], "unsafe.Slice length")
+		if p.Obj == nil {
+			if n == 0 {
+				return Slice{}
+			}
+			in.goPanicf("unsafe.Slice: nil pointer with non-zero length")
+		}
+		p = in.concretePtr(p)
+		et := cc.Args[0].Type().Underlying().(*types.Pointer).Elem()
+		stride := in.layoutOf(et).cells
+		if n < 0 || p.Off+n*stride > len(p.Obj.Cells) {
+			in.goPanicf("unsafe.Slice: %d elements at offset %d exceed the underlying object (%d cells): access outside the memory handed to the routine", n, p.Off, len(p.Obj.Cells))
+		}
+		return Slice{Obj: p.Obj, Off: p.Off, Len: n, Cap: n, Stride: stride}
+	case "SliceData":
+		s := args[0].(Slice)
+		if s.Obj == nil {
+			return Pointer{}
+		}
+		return Pointer{Obj: s.Obj, Off: s.Off}
+	case "Add": // unsafe.Add on byte-granular objects only
+		p := args[0].(Pointer)
+		n := in.concInt(args[1], "unsafe.Add offset")
+		return Pointer{Obj: p.Obj, Off: p.Off + n}
 	case "print", "println":
 		return nil
 	case "ssa:wrapnilchk":
